@@ -39,8 +39,9 @@ theorem off_eq_iff {N a a' j j' : Nat} (hj : j < N) (hj' : j' < N) :
 
 theorem swapRows_aux {α : Type} (N : Nat) (m : Nat → α) (i r : Nat) :
     ∀ n, n ≤ N → ∀ a j, j < N →
-      forUp n (fun j m => let e := m (i*N + j); fset (fset m (i*N + j) (m (r*N + j))) (r*N + j) e) m
-          (a*N + j)
+      (forUp n (fun j (b : Box (Nat → α)) =>
+          ⟨fset (fset b.val (i*N + j) (b.val (r*N + j))) (r*N + j) (b.val (i*N + j)), b.cnt + 1⟩)
+          ⟨m, 0⟩).val (a*N + j)
         = if j < n then (if a = i then m (r*N + j) else if a = r then m (i*N + j) else m (a*N + j))
           else m (a*N + j) := by
   intro n
@@ -73,8 +74,9 @@ theorem swapRows_spec {α : Type} (N : Nat) (m : Nat → α) (i r a j : Nat) (hj
 
 theorem swapCols_aux {α : Type} (N : Nat) (m : Nat → α) (j c : Nat) (hj : j < N) (hc : c < N) :
     ∀ n, ∀ a b, b < N →
-      forUp n (fun i m => let e := m (i*N + j); fset (fset m (i*N + j) (m (i*N + c))) (i*N + c) e) m
-          (a*N + b)
+      (forUp n (fun i (b : Box (Nat → α)) =>
+          ⟨fset (fset b.val (i*N + j) (b.val (i*N + c))) (i*N + c) (b.val (i*N + j)), b.cnt + 1⟩)
+          ⟨m, 0⟩).val (a*N + b)
         = if a < n then (if b = j then m (a*N + c) else if b = c then m (a*N + j) else m (a*N + b))
           else m (a*N + b) := by
   intro n
